@@ -39,6 +39,21 @@ CHECKS = {
          "54 theorems for all permutations and all argument values (including assert/IndexError branches); exhaustive correspondence for |p|<=6 "
          "with all indices/values/shifts in -2n..2n and an independent definitional oracle.",
          "uniqueness of decompositions and left-maximality of runs are evaluated only.", "5/C10"),
+ "C03": ("Lean 4 theorem model=spec for mesh/bivincular/vincular/covincular occurrences + adjacency equivalence + correspondence over all shadings of short patterns",
+         "Proved for all permutations and all meshes: the model of MeshPatt/BivincularPatt occurrences equals the spec list (occurrences of the "
+         "underlying pattern with no other point in a shaded cell), same order, once each; the _to_shading mesh is equivalent to the adjacency "
+         "requirements; mixed contains/avoids agree with the spec; history independence. Exhaustive correspondence over every shading of patterns of length <=2.",
+         "", "5/C03"),
+ "C06": ("Lean 4 theorems: sub_mesh_pattern shading characterisation, composition of occurrences, meshInMesh soundness and completeness for all permutations, strongest-subpattern + correspondence with semantic oracle",
+         "Proved for all mesh pairs and ALL permutations: reported mesh-in-mesh containment transfers containment through the composed points; "
+         "sub_mesh_pattern shades exactly the shaded point-free regions and is the strongest implied pattern. Exhaustive correspondence on all pairs |nu|<=1,|mu|<=2 "
+         "over all shadings with a brute-force semantic oracle.",
+         "", "5/C06"),
+ "C07": ("Lean 4 small-step model of threads sharing one Av object under the source's lock discipline + deterministic-scheduler correspondence on real threads",
+         "Threads are modelled as a small-step machine over the C02 cache model (acquire, one write per shared mutation, release, read); real "
+         "threads run the real methods under a seeded deterministic scheduler (settrace pre-emption at every line of permset.py, scheduler-aware "
+         "lock), and results and final cache are compared with the model run in the observed acquisition order and with the sequential oracle.",
+         "schedule-induction theorem in progress (see evidence.partial); atomicity of single CPython container operations is assumed.", "5/C07"),
 }
 
 PENDING = {}
